@@ -20,6 +20,11 @@ fn gen_ref_library(r: &mut Rng, n: usize, chain: bool) -> Vec<(String, String)> 
         .map(|(i, k)| {
             let dir = crate::oracle::md::dir_of(k);
             let mut text = format!("# title {}\n\npara {} alpha\n", i, i);
+            // an existing note may have no content at all (empty, blank, front matter only): a reference to it expands
+            // to nothing, which is not the same as not expanding
+            if !chain && i > 0 && r.chance(1, 6) {
+                return (k.clone(), r.pick(&["", "\n", "   \n", "---\ntitle: only meta\n---\n"][..]).to_string());
+            }
             let nrefs = if chain { 1 } else { r.range(0, 3) };
             for j in 0..nrefs {
                 let target = if chain { keys[(i + 1) % n].clone() } else if r.chance(1, 8) { "missing".to_string() } else { r.pick(&keys[..]).clone() };
@@ -60,6 +65,8 @@ fn expected_words(lib: &HashMap<String, String>, key: &str, depth: u8) -> Vec<St
     fn body(lib: &HashMap<String, String>, key: &str, depth: u8, out: &mut Vec<String>) {
         let Some(text) = lib.get(key) else { return };
         let dir = crate::oracle::md::dir_of(key);
+        // front matter is not content
+        let text: &str = if text.starts_with("---\n") { text.splitn(3, "---\n").nth(2).unwrap_or("") } else { text };
         for line in text.lines() {
             // containers: leading indentation, quote and list markers are not content
             let mut line = line.trim_start();
